@@ -8,6 +8,7 @@ children and threads only contain what scrapli created.
 
 Per session the behaviour is read from the JSON control file CTL (env C11_CTL for ssh-tty):
   {"neg": n, "partial": bool, "die_after": k|null, "silent_after": k|null, "hangup": seconds|null (ssh-tty: close the tty, exit later),
+   "rst": bool (telnet-server: die = reset the connection instead of an orderly FIN),
    "login": "refuse"|null (ssh-tty / telnet-server: ask for the password / login name for ever)}
 die_after / silent_after count received lines of the session."""
 import json, os, sys, time
@@ -126,6 +127,11 @@ def telnet_server(ctl_path):
                         out.append(b)
                         continue
                     what = c.line()
+                    if what == "die" and c.c.get("rst"):
+                        # reset the connection: the client's socket is DEAD (send/recv fail) when its close() runs
+                        import struct
+                        conn.setsockopt(socket.SOL_SOCKET, socket.SO_LINGER, struct.pack("ii", 1, 0))
+                        return
                     if what == "die":
                         if c.c.get("partial"):
                             conn.sendall(bytes([IAC, DO]))
